@@ -21,7 +21,8 @@ MANIFEST = {
     "technique": "Coq proof (scanner totality, loop termination) + model/implementation correspondence + isolated execution with time/memory limits",
 }
 
-THEOREMS = ["C01_parse_number_total", "C01_legacy_hex_panics", "C01_attr_loop_terminates", "C01_legacy_attr_loop_diverges", "C01_text_decoder_progress"]
+THEOREMS = ["C01_parse_number_total", "C01_legacy_hex_panics", "C01_attr_loop_terminates", "C01_legacy_attr_loop_diverges", "C01_text_decoder_progress",
+            "C01_value_parser_terminates", "C01_expression_parser_never_moves_backwards"]
 
 
 def _canon(x):
@@ -77,6 +78,14 @@ def run(res):
         else:
             res.violation("number scanner differs from the Coq model on %r: impl=%s model=%s" % (lit, i, m),
                           {"literal_and_tail": lit, "impl": i, "model": m}, no_input=True)
+    # 1b. the expression / value parser: model (whose termination is proved) vs implementation
+    import valparse
+    rv = valparse.run(res.tier, res.seed, "C01")
+    res.notes["value_parser_cases"] = rv["n"]
+    for (c, i, m) in rv["mismatches"][:3]:
+        d = valparse.describe(c)
+        res.violation("the parser reads the %s value %r as %s, the Coq model of the expression / value parser says %s" % (
+            d["context"], d["source"][:200], i[:300], m[:300]), dict(d, impl=i, model=m), no_input=True)
     # 2. every API on every input, isolated
     for release in ([False, True] if res.tier == "thorough" else [False]):
         exe = harness_build(release)
